@@ -31,14 +31,14 @@ pub fn register(v: &mut Vec<Box<dyn Family>>) {
     v.push(Box::new(XInitAf));
 }
 
-fn hex(b: &[u8]) -> String {
+pub fn hex(b: &[u8]) -> String {
     if b.is_empty() {
         "-".into()
     } else {
         b.iter().map(|x| format!("{:02x}", x)).collect()
     }
 }
-fn unhex(s: &str) -> Vec<u8> {
+pub fn unhex(s: &str) -> Vec<u8> {
     if s == "-" {
         return vec![];
     }
@@ -46,7 +46,7 @@ fn unhex(s: &str) -> Vec<u8> {
 }
 
 /// extension sets by number (Token-2022 `ExtensionType`); built into valid TLV data by the real crate
-const EXT_SETS: &[&[u16]] = &[
+pub const EXT_SETS: &[&[u16]] = &[
     &[],
     &[1],         // TransferFeeConfig
     &[10],        // InterestBearingConfig
@@ -62,7 +62,7 @@ const EXT_SETS: &[&[u16]] = &[
     &[3, 10, 18], //
 ];
 
-fn build_tlv(set: &[u16], frozen_default: bool) -> Vec<u8> {
+pub fn build_tlv(set: &[u16], frozen_default: bool) -> Vec<u8> {
     use spl_token_2022::extension::{BaseStateWithExtensionsMut, ExtensionType, StateWithExtensionsMut};
     if set.is_empty() {
         return vec![];
@@ -109,7 +109,7 @@ fn build_tlv(set: &[u16], frozen_default: bool) -> Vec<u8> {
     buf[166..].to_vec()
 }
 
-fn mint_account(prog22: bool, freeze: bool, tlv: &[u8]) -> Vec<u8> {
+pub fn mint_account(prog22: bool, freeze: bool, tlv: &[u8]) -> Vec<u8> {
     let base = spl_token_2022::state::Mint {
         mint_authority: COption::Some(k(0xD9, 1)),
         supply: 1_000_000,
@@ -128,7 +128,7 @@ fn mint_account(prog22: bool, freeze: bool, tlv: &[u8]) -> Vec<u8> {
 }
 
 /// the published admission table, walked independently of the program
-fn admissible(prog22: bool, native: bool, freeze: bool, badge: bool, tlv: &[u8]) -> Result<(), String> {
+pub fn admissible(prog22: bool, native: bool, freeze: bool, badge: bool, tlv: &[u8]) -> Result<(), String> {
     if !prog22 {
         return Ok(());
     }
